@@ -64,6 +64,24 @@ func c05Alphabet() []rEvent {
 	}
 }
 
+// c05RestartAlphabet: three transfers of ONE message ID - A (N=3), R (N=3, other bodies and serials) and S (N=2) -
+// for histories in which a transfer is abandoned with a gap and the next one begins.
+func c05RestartAlphabet() []rEvent {
+	bodyR := [][]byte{unhx("000000bb00000102" + strings.Repeat("22", 28)), {0x7D, 0x02, 0x7E, 0x33}, {0xBB, 0xBC}}
+	bodyS := [][]byte{unhx("000000cc00000102" + strings.Repeat("33", 28)), {0xCC, 0x7E}}
+	return []rEvent{
+		rPacket("A1", 0x0801, 3, 1, 10, bodyA[0]),
+		rPacket("A2", 0x0801, 3, 2, 11, bodyA[1]),
+		rPacket("A3", 0x0801, 3, 3, 12, bodyA[2]),
+		rPacket("R1", 0x0801, 3, 1, 50, bodyR[0]),
+		rPacket("R2", 0x0801, 3, 2, 51, bodyR[1]),
+		rPacket("R3", 0x0801, 3, 3, 52, bodyR[2]),
+		rPacket("S1", 0x0801, 2, 1, 60, bodyS[0]),
+		rPacket("S2", 0x0801, 2, 2, 61, bodyS[1]),
+		rPacket("H", 0x0002, 0, 0, 30, nil),
+	}
+}
+
 func c14Alphabet() []rEvent {
 	return []rEvent{
 		rPacket("X1", 0x0801, 3, 1, 10, bodyA[0]),
@@ -192,6 +210,43 @@ type rCase struct {
 	Mode   string   `json:"mode"` // per-frame | coalesced | cut:<offset> (cut inside the concatenation of all frames)
 	Conn   bool     `json:"via_connection,omitempty"`
 	Prop   string   `json:"property"`
+	// Restart: histories in which a transfer is abandoned and a NEW transfer of the same message ID begins (packet 1
+	// again, other bodies) are inside the search; see restartOK for the discipline they obey
+	Restart bool `json:"restarts_allowed,omitempty"`
+}
+
+// restartOK: the terminal works on ONE transfer per message ID at a time - packets 2..N always belong to the transfer
+// whose packet 1 came last, and packet 1 of a transfer is not repeated while that transfer is active. (Packets cannot
+// be attributed to a transfer other than by the message ID, so a packet of an abandoned transfer arriving after the
+// next one began is outside what any server could handle.) Event names: <variant letter><packet number>.
+func restartOK(events []rEvent) bool {
+	cur := map[uint16]string{} // message ID -> variant of the latest packet 1
+	have := map[uint16]map[uint16]bool{}
+	for _, e := range events {
+		if e.Frame == "" {
+			continue
+		}
+		f, err := ref.Decode(unhx(e.Frame))
+		if err != nil || !f.Fragmented || f.Number == 0 || f.Number > f.Total {
+			continue
+		}
+		v := e.Name[:1]
+		if f.Number == 1 {
+			if cur[f.ID] == v && have[f.ID] != nil {
+				return false // packet 1 repeated while its transfer is active
+			}
+			cur[f.ID], have[f.ID] = v, map[uint16]bool{}
+		} else if cur[f.ID] != v {
+			return false // packet of a transfer that is not the current one
+		}
+		if have[f.ID] != nil {
+			have[f.ID][f.Number] = true
+			if len(have[f.ID]) == int(f.Total) {
+				have[f.ID] = nil // complete: the same transfer may be sent again
+			}
+		}
+	}
+	return true
 }
 
 type rObs struct {
@@ -300,6 +355,9 @@ func rEval(c rCase) (sig, diag string, nreads int, key string, interesting bool)
 		names[i] = e.Name
 	}
 	where := fmt.Sprintf("history [%s] mode %s", strings.Join(names, " "), c.Mode)
+	if c.Restart && !restartOK(c.Events) {
+		return "", "", 0, "", false // outside the discipline of the restart histories
+	}
 	if c.Conn {
 		return rEvalConn(c, reads, frames, where)
 	}
@@ -308,7 +366,7 @@ func rEval(c rCase) (sig, diag string, nreads int, key string, interesting bool)
 	for i, rd := range reads {
 		vs.SetFreeClock(rd.at * 1e6)
 		wantC, wantR := rm.read(frames[i], rd.at)
-		if rm.restart {
+		if rm.restart && !c.Restart {
 			return "", "", i, "", false // outside the property's precondition
 		}
 		n := copy(buf, rd.bytes)
@@ -435,7 +493,7 @@ func rEvalConn(c rCase, reads []rRead, frames [][]*ref.Frame, where string) (sig
 	plain := 0
 	for i, rd := range reads {
 		cs, rs := rm.read(frames[i], rd.at)
-		if rm.restart {
+		if rm.restart && !c.Restart {
 			return "", "", 0, "", false
 		}
 		wantC = append(wantC, cs...)
@@ -525,7 +583,8 @@ func rEvalConn(c rCase, reads []rRead, frames [][]*ref.Frame, where string) (sig
 
 // rSearch is the breadth-first search over event histories with
 // deduplication on the canonical state of the real reassembler.
-func rSearch(ctx *vc.Ctx, rep *vc.Report, prop string, alpha []rEvent, depth int, dedup bool, cutDepth int, connDepth int) {
+func rSearch(ctx *vc.Ctx, rep *vc.Report, prop string, alpha []rEvent, depth int, dedup bool, cutDepth int, connDepth int, restart ...bool) {
+	allowRestart := len(restart) > 0 && restart[0]
 	type node struct{ hist []int }
 	frontier := []node{{}}
 	seen := map[string]bool{}
@@ -536,7 +595,7 @@ func rSearch(ctx *vc.Ctx, rep *vc.Report, prop string, alpha []rEvent, depth int
 		if !ctx.Mine(idx) {
 			return "", true
 		}
-		c := rCase{Mode: mode, Conn: conn, Prop: prop}
+		c := rCase{Mode: mode, Conn: conn, Prop: prop, Restart: allowRestart}
 		for _, i := range h {
 			c.Events = append(c.Events, alpha[i])
 		}
@@ -574,7 +633,7 @@ func rSearch(ctx *vc.Ctx, rep *vc.Report, prop string, alpha []rEvent, depth int
 				h := append(append([]int(nil), n.hist...), e)
 				// every worker computes the successor's key (cheap) so that all agree on the frontier;
 				// the oracle-bearing evaluations are sharded inside run()
-				c := rCase{Mode: "per-frame", Prop: prop}
+				c := rCase{Mode: "per-frame", Prop: prop, Restart: allowRestart}
 				for _, i := range h {
 					c.Events = append(c.Events, alpha[i])
 				}
@@ -655,7 +714,7 @@ func init() {
 	vc.Register(&vc.Check{
 		ID: "C05", Level: "model_checking",
 		Rule: "breadth-first search over ALL histories up to depth 5 (thorough 6) of the events {A1,A2,A3 (0x0801, N=3, unequal bodies, one escape-dense), B1,B2 (0x0704, N=2), heartbeat, location, B0 (an unfragmented 0x0704: an ordinary message carrying the ID of a transfer in progress), A#0, A#4 (impossible numbers), C#2 (no transfer of that ID), D1/1 (N=1)} on the REAL reassembler, each history fed one frame per read, all frames coalesced, every frame split in the middle, two frames per read, under EVERY 1-cut for depth <= 3, and through the real connection for depth <= 3 (handlers must see complete messages only, one reply each); then the same search with deduplication on (real state, reference state) run to its FIXPOINT (every reachable reassembler state over this alphabet at any depth, one frame per read and coalesced); plus N=255 transfers in forward, reverse and interleaved order. " +
-			"Histories that repeat packet 1 of an active transfer leave the property's precondition and are skipped. states = distinct canonical reassembler states (slot occupancy, buffered bytes) per worker, summed; transitions = reads. Non-trivial = history that completes at least one transfer",
+			"Histories that repeat packet 1 of an active transfer leave the property's precondition and are skipped. A second search (same depths, and to its fixpoint) covers ABANDONED transfers: three transfers of one message ID (A and R with N=3 and different bodies, S with N=2), where a new transfer may begin (its packet 1) while the previous one still has a gap and packets 2..N always belong to the transfer begun last: what is delivered must be the begun-last transfer, whole, never a mixture with packets of the abandoned one. states = distinct canonical reassembler states (slot occupancy, buffered bytes) per worker, summed; transitions = reads. Non-trivial = history that completes at least one transfer",
 		Assumptions: []string{"reference reassembler in checks/c05.go", "accessor VerifParser (tag verif) for the extractor-level search; connection-level replays use no accessor"},
 		Run: func(ctx *vc.Ctx, rep *vc.Report) {
 			depth := 5
@@ -668,6 +727,9 @@ func init() {
 			before := rep.Counters["states_merged"]
 			rSearch(ctx, rep, "C05", c05Alphabet(), 64, true, 0, 0)
 			rep.Count("fixpoint_reached_states_merged", rep.Counters["states_merged"]-before)
+			// abandoned transfers: a NEW transfer of the same message ID begins while the previous one has a gap
+			rSearch(ctx, rep, "C05", c05RestartAlphabet(), depth, false, 0, 3, true)
+			rSearch(ctx, rep, "C05", c05RestartAlphabet(), 64, true, 0, 0, true)
 			c05Big(ctx, rep)
 		},
 		Drivers: map[string]func(json.RawMessage) string{"reasm": rReplay},
